@@ -570,17 +570,70 @@ def r5(ctx):
     nr = pat.kwarg(c, "next_rank", 2)
     lp = [n for n in f.own_nodes() if isinstance(n, ast.For) and is_within(c, n)]
     chained = False
-    if nr is not None and isinstance(nr, ast.Name) and lp:
+    if nr is not None and lp:
+        loop = lp[0]
         v = enclosing_stmt(c)
-        newname = text(v.targets[0]) if isinstance(v, ast.Assign) else None
-        for st in lp[0].body:
-            if isinstance(st, ast.Assign) and text(st.targets[0]) == nr.id and \
-                    text(st.value) == newname:
+        newname = text(v.targets[0]) if isinstance(v, ast.Assign) and v.value is c else None
+        # the list the new rank is put at the head of
+        ins = [x for x in pat.calls(_walk(loop.body))
+               if text(x.func).endswith(".insert") and len(x.args) == 2 and
+               text(x.args[0]) == "0" and
+               (x.args[1] is c or (newname and text(x.args[1]) == newname))]
+        rev = "reversed(" in text(loop.iter)
+        lst = text(ins[0].func.value) if ins else None
+        # (a) loop-carried: the link is a variable that is None before the
+        # loop and is set to the new rank in the body
+        if isinstance(nr, ast.Name) and newname:
+            facts, is_param = pat.defs_of(ctx, f, nr)
+            facts = [fa for fa in facts if fa.kind == "expr"]
+            inside = [fa for fa in facts if is_within(fa.stmt, loop)]
+            outside = [fa for fa in facts if not is_within(fa.stmt, loop)]
+            if not is_param and inside and outside and \
+                    all(text(fa.value) == newname for fa in inside) and \
+                    all(text(fa.value) == "None" for fa in outside):
                 chained = True
-        rev = "reversed(" in text(lp[0].iter)
-        ins0 = any(text(x.func).endswith("ranks.insert") and x.args and
-                   text(x.args[0]) == "0" for x in pat.calls(_walk(lp[0].body)))
-        chained = chained and rev and ins0
+        # (b) head of the list: the rank made in the previous step is the
+        # first entry of the list (None while the list is still empty)
+        if not chained and lst:
+            alts = None
+            if isinstance(nr, ast.Name):
+                facts, is_param = pat.defs_of(ctx, f, nr)
+                if not is_param and facts and all(
+                        fa.kind == "expr" and is_within(fa.stmt, loop) for fa in facts):
+                    alts = []
+                    for fa in facts:
+                        for g, e in pat.ifexp_alternatives(
+                                ctx, f, fa.value, frozenset(
+                                    pat.catoms_of_guards(ctx, f, fa.stmt, stop=loop))):
+                            alts.append((g, e))
+            else:
+                alts = pat.ifexp_alternatives(ctx, f, nr)
+
+            def nonempty(atom):
+                """True / False when the atom says the list is non-empty /
+                empty, None otherwise."""
+                ln = "len(%s)" % lst.replace(" ", "")
+                table = {("truth", lst.replace(" ", ""), True): True,
+                         ("truth", lst.replace(" ", ""), False): False,
+                         ("truth", ln, True): True, ("truth", ln, False): False,
+                         pat.A("<", "0", ln): True, pat.A("<=", ln, "0"): False,
+                         pat.A("!=", ln, "0"): True, pat.A("==", ln, "0"): False,
+                         pat.A("<=", "1", ln): True, pat.A("<", ln, "1"): False}
+                return table.get(atom)
+            if alts and len(alts) == 2:
+                got = set()
+                for g, e in alts:
+                    g = [nonempty(a) for a in g]
+                    if len(g) == 1 and g[0] is not None:
+                        got.add((g[0], text(e).replace(" ", "")))
+                starts_empty = any(
+                    isinstance(st, ast.Assign) and text(st.targets[0]) == lst and
+                    text(st.value) in ("[]", "list()")
+                    for st in (parent_block(loop) or ([],))[0][:(parent_block(loop) or (0, 0))[1]])
+                if got == {(True, "%s[0]" % lst.replace(" ", "")), (False, "None")} \
+                        and starts_empty:
+                    chained = True
+        chained = chained and rev and bool(ins)
     if chained:
         ctx.ok("C02.R5", f, c, "ranks built bottom-up, each linked to the one below")
     else:
